@@ -5,6 +5,9 @@ def jobs(tier):
     for lo in range(0, 12, 2):
         js.append(vp.Job("msp430_enc.two.op%d" % lo, "msp430_enc.cpp", {"KIND": 1, "OPLO": lo, "OPN": 2}, max_paths=400000, timeout=420 if tier == "quick" else 900, allow_partial=True, min_completed=20))
     js.append(vp.Job("msp430_enc.one", "msp430_enc.cpp", {"KIND": 2}, max_paths=400000, timeout=420 if tier == "quick" else 900, allow_partial=True, min_completed=20))
+    # (c) manual encodings: RV32I base
+    for kind, nm in ((1, "r"), (2, "i"), (3, "shift"), (4, "load"), (5, "store"), (6, "branch"), (7, "u"), (8, "jal"), (9, "sys")):
+        js.append(vp.Job("riscv_enc." + nm, "riscv_enc.cpp", {"KIND": kind}, max_paths=400000, timeout=300 if tier == "quick" else 900, allow_partial=True, min_completed=2))
     # (a)/(b) encode -> decode -> encode fixpoint and tiling: the roundtrip harness (shared with C07), RV32/RVC from the bytes side
     for j in C07.jobs(tier, ["riscv"] if tier == "quick" else ["riscv", "msp430"]):
         js.append(j)
@@ -27,8 +30,8 @@ def main(tier):
     return vp.check_property("C01", tier, jobs(tier),
         "(c) MSP430 core encodings: instruction texts are built from engine-enumerated choices (12 double-operand, 6 single-operand, 8 jump mnemonics; .b/.w; 7 source and 4 destination addressing modes; registers) "
         "and symbolic 16-bit operand values, assembled by the real two-pass assembler and compared word by word with a reference encoder written from the user's guide (constant generator, symbolic/absolute/indexed "
-        "extension words, jump offsets). (a)/(b) fixpoint and tiling: the roundtrip harness (symbolic bytes -> disasm -> asm -> disasm -> asm) asserts that the disassembler consumes exactly what the assembler emitted "
+        "extension words, jump offsets). RV32I base encodings likewise, against a reference encoder written from the RISC-V manual's instruction formats. (a)/(b) fixpoint and tiling: the roundtrip harness (symbolic bytes -> disasm -> asm -> disasm -> asm) asserts that the disassembler consumes exactly what the assembler emitted "
         "and that re-assembling the disassembly reproduces the same bytes, for RV32I/RVC in the quick tier and further CPUs in the thorough tier.",
         ["MSP430: registers r4, r9, r14 (source) and r5, r15 (destination); operand values all 2^16; code at 0x8000; byte immediates written 0..255",
-         "RV32I manual encodings are not checked against an independent reference encoder yet (only the assembler/disassembler fixpoint); instruction texts that the decoder cannot print are outside the claim",
+         "RV32I base: R-type, I-type ALU and jalr, shifts, loads, stores, branches, lui/auipc, jal, ecall/ebreak with SYMBOLIC register numbers (x0..x31 as x<n>), symbolic 12-bit / 20-bit immediates, shift amounts and branch/jump targets in decimal, code at 0x4000, compared with a reference encoder written from the manual's R/I/S/B/U/J formats; FENCE (assembler-specific operand syntax), ABI register names and CSR instructions are outside; instruction texts that the decoder cannot print are outside the fixpoint claim",
          "roundtrip window at a concrete address; partial_allowed jobs explore paths until their time budget"])
